@@ -255,6 +255,17 @@ func (e *sqEval) evalArgsExpr(sc *sqScope, x ast.Expr) ([]sqArg, bool) {
 		}
 		return out, true
 	case *ast.CallExpr:
+		// a function or method of the package whose body is "return []any{…}": the list it returns (the element
+		// expressions live in that function; consumers locate their function by position)
+		if fn := e.calleeFunc(v); fn != nil && fn.Pkg() == e.pkg.Types {
+			if lit := e.returnedAnyList(fn); lit != nil {
+				var out []sqArg
+				for _, el := range lit.Elts {
+					out = append(out, sqArg{kind: argExpr, expr: el})
+				}
+				return out, true
+			}
+		}
 		if id, ok := v.Fun.(*ast.Ident); ok {
 			switch id.Name {
 			case "make":
@@ -605,6 +616,34 @@ func (e *sqEval) findCalls(sc *sqScope, x ast.Node) {
 		}
 	}
 	e.pendingScans = nil
+}
+
+// returnedAnyList: fn's body consists of a single return of a []any composite literal.
+func (e *sqEval) returnedAnyList(fn *types.Func) *ast.CompositeLit {
+	for _, f := range e.pkg.Syntax {
+		for _, d := range f.Decls {
+			fd, ok := d.(*ast.FuncDecl)
+			if !ok || fd.Body == nil || e.info.Defs[fd.Name] != fn {
+				continue
+			}
+			if len(fd.Body.List) != 1 {
+				return nil
+			}
+			rs, ok := fd.Body.List[0].(*ast.ReturnStmt)
+			if !ok || len(rs.Results) != 1 {
+				return nil
+			}
+			lit, ok := ast.Unparen(rs.Results[0]).(*ast.CompositeLit)
+			if !ok {
+				return nil
+			}
+			if t := e.info.TypeOf(lit); t == nil || !isAnySlice(t) {
+				return nil
+			}
+			return lit
+		}
+	}
+	return nil
 }
 
 func (e *sqEval) calleeFunc(ce *ast.CallExpr) *types.Func {
